@@ -559,7 +559,11 @@ class VarsManager(object):
             )
         else:
             follow(name_list, same_real(new_name_list))
-        self.same_list.append(name_list)
+        # the name the group is known under in trainable_vars (the head of the
+        # first merged group) stays the first name of the group
+        self.same_list.append(
+            new_name_list + [i for i in name_list if i not in new_name_list]
+        )
 
     def get(self, name, val_in_fit=True):
         """
